@@ -262,12 +262,12 @@ CONSUMERS = [".take(6).to_array()", ".get(K)", ".nth(1, (x: int)->{x % 2 == 0})"
              ".take(6).reduce(0, (a: int, b: int)->{a + b})", ".take(5).sum()", ".take(4).join(\",\")".replace(".join", ".map((x: int)->{x.to_str()}).join")]
 
 
-def pipeline_transparency(chk, rng, n, prefix="c06"):
+def pipeline_transparency(chk, rng, n, prefix="c06", only_size=False):
     """Pipelines source.adaptor{1..3}.consumer over generators with user callbacks: under every call / search limit the outcome is
     that limit's violation or exactly the unlimited outcome — an adaptor or consumer that swallows a violation raised while it
     pulls (and skips, filters, buffers …) elements produces a third outcome."""
     cases = []
-    for _ in range(n):
+    for _ in range(0 if only_size else n):
         e = rng.choice(SOURCES)
         for _ in range(rng.choice([1, 2, 2, 3])):
             e += rng.choice(ADAPTORS).replace("KK", str(rng.choice([3, 6, 12]))).replace("K", str(rng.choice([1, 2, 5, 7])))
